@@ -16,7 +16,7 @@ ID = 'C17'
 CASE_TYPE = 'C17.case'
 EXTRA_IMPORTS = 'From PJ Require Import Model.Bind Lemmas.BindL.\n'
 RULE = ('all signatures of 0..3 (quick) / 0..4 (thorough) parameters over positional-or-keyword / keyword-only kinds x defaults x '
-        '{no context, context parameter by name at each position} x {function, coroutine, class-based view method}; for each the OpenAPI '
+        '{no context, context parameter by name at each position} x {function, coroutine, class-based view method} (+ the same function registered a second time without the context designation and served first); for each the OpenAPI '
         '3.0 / 3.1 request schema and the OpenRPC params list are REALLY generated (pydantic extractor) and their properties / required '
         'read out; every params object over subsets of (parameter names + one undocumented name + the context name) is dispatched. '
         'distinct = distinct (signature, context, kind); non-trivial = the signature has a parameter')
@@ -56,6 +56,9 @@ def generate(seed, tier):
                 if kind == 'view' and ctx is not None:
                     continue
                 cases.append({'sig': sig, 'ctx': ctx, 'kind': kind})
+                if ctx is not None and kind == 'function':
+                    # the same function also registered WITHOUT the context designation and served first
+                    cases.append({'sig': sig, 'ctx': ctx, 'kind': kind, 'twin': True})
     return cases
 
 
@@ -77,6 +80,8 @@ def build(case):
             disp.add(ns['f'], context=case['ctx'])
         else:
             disp.add(ns['f'])
+        if case.get('twin'):
+            disp.add(ns['f'], name='g')
     return disp, is_async
 
 
@@ -88,19 +93,21 @@ def doc_params(disp):
         doc = spec.schema(path='/', methods_map=methods)
         json.dumps(doc)
         comps = doc.get('components', {}).get('schemas', {})
-        cand = [v for k, v in comps.items() if k.endswith('Parameters')]
+        cand = [v for k, v in comps.items() if k.lower() == 'fparameters']
         assert len(cand) == 1, list(comps)
         out.append((sorted(cand[0].get('properties', {})), sorted(cand[0].get('required', []))))
     spec = orpc.OpenRPC(info=orpc.Info(version='1', title='t'), schema_extractor=PydanticSchemaExtractor())
     doc = spec.schema(path='/', methods_map=methods)
     json.dumps(doc)
-    ps = doc['methods'][0]['params']
+    ps = [m for m in doc['methods'] if m['name'] == 'f'][0]['params']
     out.append((sorted(p['name'] for p in ps), sorted(p['name'] for p in ps if p.get('required'))))
     return out
 
 
 def observe(case):
     disp, is_async = build(case)
+    if case.get('twin'):
+        disp.dispatch(json.dumps({'jsonrpc': '2.0', 'id': 0, 'method': 'g', 'params': {p[0]: 0 for p in case['sig']}}), context='CTX')
     docs = doc_params(disp)
     names = [p[0] for p in case['sig']]
     universe = names + ['zz'] + (['ctx'] if case['kind'] == 'view' else [])
